@@ -22,6 +22,7 @@ pub mod native {
         pub passed: usize,
         pub covers_hit: Vec<&'static str>,
         pub env_skipped: usize,
+        pub random: Option<u64>,
     }
 
     thread_local! {
@@ -42,9 +43,34 @@ pub mod native {
     }
 
     /// Pop the next value of `n` bytes (little endian), zero-extended.
+    pub fn load_random(seed: u64) {
+        ST.with(|s| {
+            *s.borrow_mut() = State {
+                random: Some(seed | 1),
+                ..State::default()
+            }
+        });
+    }
+
     pub fn pop(n: usize) -> u128 {
         ST.with(|s| {
             let mut s = s.borrow_mut();
+            if let Some(mut x) = s.random {
+                // xorshift64*: pseudo-random values for the "required witness" sampling mode
+                let mut out: u128 = 0;
+                for k in 0..2 {
+                    x ^= x >> 12;
+                    x ^= x << 25;
+                    x ^= x >> 27;
+                    out |= (x.wrapping_mul(0x2545F4914F6CDD1D) as u128) << (64 * k);
+                }
+                s.random = Some(x);
+                s.pos += 1;
+                // bias towards small values half of the time (bounds in assumptions are mostly small)
+                let small = (out >> 100) & 1 == 1;
+                let v = if n >= 16 { out } else { out & ((1u128 << (8 * n)) - 1) };
+                return if small { v & 0x3f } else { v };
+            }
             // 12-byte entries are environment records of float stubs (ln/log2): natively
             // the real function runs instead, nothing is drawn.
             while s.pos < s.script.len() && s.script[s.pos].len() == 12 {
